@@ -145,6 +145,83 @@ def fallible_alloc_rule(db, body, emit):
     return len(sites)
 
 
+HEAP_OWNERS = ("alloc::boxed::Box", "alloc::vec::Vec")
+
+
+def _holds_heap(t, depth=0):
+    if not isinstance(t, dict) or depth > 6:
+        return False
+    if t.get("k") == "adt":
+        if t["def"] in HEAP_OWNERS:
+            return True
+        if t["def"] in ("core::mem::ManuallyDrop", "core::mem::MaybeUninit", "core::option::Option"):
+            return any(_holds_heap(x, depth + 1) for x in t.get("args", []) if x.get("k") != "region")
+    return False
+
+
+def suppressed_owner_rule(db, emit):
+    """C16.M: a `ManuallyDrop<Box<..>>` / `ManuallyDrop<Vec<..>>` takes the release of a heap block out of the compiler's hands. Where such a value
+    is released by hand inside a `Drop::drop` (ManuallyDrop::drop / take / into_inner), the release must also be reached when an earlier call of
+    that body unwinds: a call that can run caller code (an element destructor, drop_in_place of generic storage) before the release, whose unwind
+    path does not pass a release, leaves the block allocated after all values are gone. (A plain `Box` field is released by the drop glue after
+    `Drop::drop`, also during unwinding - that is the form that needs nothing.)  Returns the number of release sites judged."""
+    from ..typestate import Classifier
+    from ..mirxf import normal_succs
+    cl = Classifier(db)
+    n = 0
+    rel_fns = ("core::mem::ManuallyDrop::<T>::drop", "core::mem::ManuallyDrop::<T>::take", "core::mem::ManuallyDrop::<T>::into_inner")
+    for b in db.bodies:
+        if b.get("impl_trait") != "core::ops::Drop" or b["kind"] != "AssocFn":
+            continue
+        blocks = b["mir"]["blocks"]
+        rel = []
+        for i, blk in enumerate(blocks):
+            t = blk["term"]
+            if t["k"] == "call" and t["f"].get("k") == "fn" and t["f"]["def"] in rel_fns:
+                ta = [x for x in t["f"].get("args", []) if x.get("k") != "region"]
+                if ta and _holds_heap(ta[0]):
+                    rel.append(i)
+        if not rel:
+            continue
+        n += len(rel)
+
+        def reach(start, into_cleanup):
+            seen, work = set(), [start]
+            while work:
+                x = work.pop()
+                if x in seen:
+                    continue
+                seen.add(x)
+                t = blocks[x]["term"]
+                succ = list(normal_succs(t))
+                if into_cleanup and isinstance(t.get("unwind"), dict):
+                    succ.append(t["unwind"]["cleanup"])
+                work.extend(succ)
+            return seen
+        normal_rel = [r for r in rel if not blocks[r].get("cleanup")]
+        bad = []
+        for i, blk in enumerate(blocks):
+            t = blk["term"]
+            if blk.get("cleanup") or t["k"] != "call" or i in rel:
+                continue
+            if cl.classify_raw(t, b) != "foreign":
+                continue
+            if not any(r in reach(i, False) for r in normal_rel):
+                continue   # after the release, or on a path that never releases
+            u = t.get("unwind")
+            if isinstance(u, dict):
+                if not any(r in reach(u["cleanup"], True) for r in rel):
+                    bad.append((t["f"]["def"], t.get("at") or b["at"]))
+            elif u == "continue":
+                bad.append((t["f"]["def"], t.get("at") or b["at"]))   # unwinds straight out of the destructor: nothing is released
+        for j, (fn, at) in enumerate(bad):
+            emit("C16.M", "%s#release#%d" % (b["key"], j), REFUTED,
+                 "%s can unwind before the hand-written release of the suppressed heap owner (ManuallyDrop<Box/Vec>) and its unwind path passes no release: the block stays allocated" % fn, at)
+        if not bad:
+            emit("C16.M", "%s#release" % b["key"], PROVED, "%d hand-written release(s) of a suppressed heap owner; no call that can unwind precedes them without a release on its unwind path" % len(rel), b["at"])
+    return n
+
+
 def check_raw_sites(ctx, cfg):
     db = ctx.db(cfg)
     n = 0
@@ -159,6 +236,8 @@ def check_raw_sites(ctx, cfg):
     for b in db.bodies:
         if b["kind"] in ("Fn", "AssocFn", "Closure") and any(t["term"]["k"] == "call" and t["term"]["f"].get("k") == "fn" and is_fallible_alloc(t["term"]["f"]["def"]) for t in b["mir"]["blocks"]):
             ne += fallible_alloc_rule(db, b, lambda rule, key, st, det, at: ctx.ob(rule, key, st, det, at=at, cfg=cfg))
+    nm = suppressed_owner_rule(db, lambda rule, key, st, det, at: ctx.ob(rule, key, st, det, at=at, cfg=cfg, frozen=False if st == PROVED else True))
+    ctx.ob("C16.M", "suppressed heap owners released by hand in a Drop impl (%s)" % cfg, PROVED, "%d release site(s) (ManuallyDrop::drop / take / into_inner of a Box / Vec inside Drop::drop); each judged against the unwind paths of the calls before it" % nm, cfg=cfg)
     ctx.ob("C16.E", "fallible allocation call sites (%s)" % cfg, PROVED, "%d call site(s) of allocation APIs that report failure as a value (try_reserve*, try_new*, try_with_capacity, Allocator::allocate ..); each must diverge through handle_alloc_error on failure" % ne, cfg=cfg)
     return n
 
@@ -191,6 +270,15 @@ def check_fixture(ctx, cfg):
     ok = gote.get("swallowed_reservation") == [REFUTED] and gote.get("diverging_reservation") == [PROVED]
     ctx.ob("C16.fixture", "fallible_reservation", ok, "C16.E on the fixture: swallowed failure -> %s (required: refuted), failure diverging through handle_alloc_error -> %s (required: proved)" % (
         gote.get("swallowed_reservation"), gote.get("diverging_reservation")), cfg=cfg)
+
+
+    gotm = {}
+    suppressed_owner_rule(fdb, lambda rule, key, st, det, at: gotm.setdefault(key.split("#")[0], []).append(st))
+    bad_k = [k for k in gotm if "LeakyGuard" in k]
+    good_k = [k for k in gotm if "Release" in k or "NestedGuard" in k]
+    okm = bool(bad_k) and all(REFUTED in gotm[k] for k in bad_k) and bool(good_k) and all(gotm[k] == [PROVED] for k in good_k)
+    ctx.ob("C16.fixture", "suppressed_owner", okm, "C16.M on the fixture: release after the element destructors without an unwind-path release -> %s (required: refuted); release placed in an inner guard that is dropped on the unwind path as well -> %s (required: proved)" % (
+        [gotm[k] for k in bad_k], [gotm[k] for k in good_k]), cfg=cfg)
 
 
 VEC_ADOPT = ("alloc::vec::Vec::<T>::from_raw_parts", "alloc::vec::Vec::<T, A>::from_raw_parts_in")
